@@ -118,6 +118,10 @@ def ty_src(t):
         return t["n"]
     if k == "verdict":
         return "Verdict[%s, %s]" % (ty_src(t["a"]), ty_src(t["r"]))
+    if k == "tparam":
+        return t["n"]
+    if k == "gen":
+        return "%s[%s]" % (t["n"], ", ".join(ty_src(a) for a in t["as"]))
     return k
 
 
@@ -218,13 +222,14 @@ class Printer:
 
     def decl(self, d):
         k = d["k"]
+        tp = "[%s]" % ", ".join(d["tp"]) if d.get("tp") else ""
         if k == "record":
-            return "record %s { %s }" % (d["n"], ", ".join("%s: %s" % (f["n"], ty_src(f["t"])) for f in d["fs"]))
+            return "record %s%s { %s }" % (d["n"], tp, ", ".join("%s: %s" % (f["n"], ty_src(f["t"])) for f in d["fs"]))
         if k == "enum":
             vs = []
             for v in d["vs"]:
                 vs.append(v["n"] + ("(%s)" % ", ".join(ty_src(t) for t in v["ts"]) if v["ts"] else ""))
-            return "enum %s { %s }" % (d["n"], ", ".join(vs))
+            return "enum %s%s { %s }" % (d["n"], tp, ", ".join(vs))
         if k == "const":
             return "const %s: %s = %s;" % (d["n"], ty_src(d["t"]), self.expr(d["e"]))
         ps = ", ".join("%s: %s" % (p["n"], ty_src(p["t"])) for p in d["ps"])
@@ -554,6 +559,19 @@ class Gen:
             vs = [(self.fresh("K"), [self.any_ty(1) for _ in range(rng.choice([0, 0, 1, 1, 2]))]) for _ in range(rng.randrange(1, 4))]
             self.enums[n] = vs
             self.decls.append({"k": "enum", "n": n, "vs": [{"n": v, "ts": ts} for v, ts in vs]})
+        # spare type declarations: declared, never constructed, so edits of their members break no other rule
+        spare = []
+        for _ in range(rng.randrange(1, 4)):
+            n = self.fresh("S")
+            mts = []
+            for _ in range(rng.randrange(1, 4)):
+                base = rng.choice([self.prim_ty(), self.prim_ty()] + [Named(x) for x in spare] + [Named(x) for x in sorted(self.records)])
+                mts.append(rng.choice([base, Opt(base), ListOf(base), Opt(ListOf(base))]))
+            if rng.random() < 0.5:
+                self.decls.append({"k": "record", "n": n, "fs": [{"n": self.fresh("f"), "t": t} for t in mts]})
+            else:
+                self.decls.append({"k": "enum", "n": n, "vs": [{"n": self.fresh("K"), "ts": [t]} for t in mts]})
+            spare.append(n)
         for _ in range(rng.randrange(0, 3)):
             n = self.fresh("C")
             t = self.prim_ty()
@@ -598,7 +616,7 @@ def random_program(rng, size=3):
 # the judgement (TraceTyping.tla) classifies every edited program, the real compiler has to
 # agree whenever the judgement rejects.
 
-MUT_OPS = ["lit", "rename", "swap-op", "wrap", "arg", "field", "arm", "elem", "annot", "dup-stmt", "del-stmt",
+MUT_OPS = ["rec-member", "insert-use", "lit", "rename", "swap-op", "wrap", "arg", "field", "arm", "elem", "annot", "dup-stmt", "del-stmt",
            "swap-stmt", "insert-exit", "insert-assign", "suffix", "dup-decl", "decl-type", "member", "pattern"]
 
 RANDOM_TYPES = [T("i32"), T("u8"), T("i64"), T("f64"), T("bool"), T("String"), T("unit"), Opt(T("i32")),
@@ -646,7 +664,24 @@ def mutate(rng, prog):
         return len(N)
 
     blocks = [i for i, n in enumerate(N) if n["k"] == "blk"]
-    if op == "lit":
+    if op == "rec-member":
+        # a member mentioning a declared type (itself or another), plain / under Option / under List, at any position
+        tds = [d for d in D if d["k"] in ("record", "enum")]
+        if not tds:
+            return None
+        d = rng.choice(tds)
+        x = Named(rng.choice([d["n"], d["n"]] + [e["n"] for e in tds]))
+        t = rng.choice([x, Opt(x), ListOf(x), Opt(ListOf(x)), ListOf(Opt(x))])
+        if d["k"] == "record":
+            d["fs"].insert(rng.randrange(len(d["fs"]) + 1), {"n": "zz_rec", "t": t})
+        else:
+            d["vs"].insert(rng.randrange(len(d["vs"]) + 1), {"n": "ZzRec", "ts": [t]})
+    elif op == "insert-use":
+        # a bare use of some name of the program at a random place (in scope or not: the judgement decides)
+        b = rng.choice(blocks)
+        s = add(V(rng.choice(_names_in(P))))
+        N[b]["ss"].insert(rng.randrange(len(N[b]["ss"]) + 1), s)
+    elif op == "lit":
         i = pick(EXPR_KINDS - {"blk"})
         if i is None:
             return None
@@ -896,7 +931,7 @@ FAMILIES = ["operand-bool", "operand-str", "logic-int", "cond-nonbool", "arg-cou
             "name-undeclared", "name-out-of-scope", "match-drop-arm", "match-after-default",
             "match-dup-arm", "neg-unsigned", "exit-forbidden", "assign-non-local", "redeclare",
             "recursive-type", "recursive-const", "elem-type", "return-type", "let-type", "assign-type",
-            "fallthrough-after-loop", "match-rename-arm"]
+            "fallthrough-after-loop", "match-rename-arm", "name-sibling-scope", "recursive-member"]
 # the rule list of the property statement; every rule must be hit by a family that produced mutants
 RULES = ["operand type / arithmetic or ordering on non-numbers", "operand type", "condition type",
          "wrong argument count", "argument type", "missing, duplicate or unknown record field", "field type",
@@ -906,11 +941,11 @@ RULES = ["operand type / arithmetic or ordering on non-numbers", "operand type",
          "recursive types or constants", "element type", "return type", "assigned value type"]
 
 
-def mc_cfg(path, tys):
+def mc_cfg(path, tys, max_members):
     with open(path, "w") as f:
-        f.write("SPECIFICATION MCSpec\nCONSTANTS\n  NumTys = {%s}\n  Families = {%s}\n"
+        f.write("SPECIFICATION MCSpec\nCONSTANTS\n  NumTys = {%s}\n  Families = {%s}\n  MaxMembers = %d\n"
                 "INVARIANTS SeedWellTyped MutantIllTyped Emit\nCHECK_DEADLOCK FALSE\n"
-                % (", ".join('"%s"' % t for t in tys), ", ".join('"%s"' % x for x in FAMILIES)))
+                % (", ".join('"%s"' % t for t in tys), ", ".join('"%s"' % x for x in FAMILIES), max_members))
 
 
 def norm_msg(res):
@@ -966,7 +1001,7 @@ def spec_to_impl(tier, ev, verd):
     """S->I: TLC-certified mutants of the TLC seeds are compiled by the real compiler."""
     d = vlib.workdir(PID, "cfg")
     cfg = os.path.join(d, "mc_%s.cfg" % tier)
-    mc_cfg(cfg, ["i32", "u8", "f64"] if tier == "quick" else ALL_TYS)
+    mc_cfg(cfg, ["i32", "u8", "f64"] if tier == "quick" else ALL_TYS, 2 if tier == "quick" else 3)
     r = run_tlc("MCTyping", cfg, workers=6, timeout=1500, heap="8g", coverage=False)
     require_tlc_ok(r, "MCTyping (SeedWellTyped / MutantIllTyped)")
     ev.add_tlc(r)
